@@ -1153,3 +1153,53 @@ Proof.
   { cbn [py_for_state]. exact (defs_loop O n _ (fun x s => eq_refl) kv cs H tss Ea []). }
   cbv beta zeta. cbn [app]. rewrite join_map, rt_join, rt_raw1. reflexivity.
 Qed.
+
+(* ------------------------------------------------------------------ the fragment is inhabited; one differential sample *)
+
+(* an oracle for the samples: every non-ASCII character printable, the text of an int *)
+Definition O_sample : cg_oracle :=
+  mk_cgo (fun _ => true) (fun n => match n with NInt z => Z_dec z | _ => s2p "?" end).
+
+Definition sample_schema : pyval := (PDict [((PStr (s2p "type")), (PStr (s2p "object"))); ((PStr (s2p "description")), (PStr [100;39;113;32;233]%N)); ((PStr (s2p "properties")), (PDict [((PStr (s2p "n")), (PDict [((PStr (s2p "type")), (PStr (s2p "integer"))); ((PStr (s2p "minimum")), (PNum (NInt (0)%Z))); ((PStr (s2p "default")), (PNum (NInt (3)%Z)))])); ((PStr (s2p "s")), (PDict [((PStr (s2p "type")), (PStr (s2p "string"))); ((PStr (s2p "pattern")), (PStr [94;97;92;100]%N)); ((PStr (s2p "maxLength")), (PNum (NInt (5)%Z))); ((PStr (s2p "default")), (PStr (s2p "x")))])); ((PStr (s2p "a")), (PDict [((PStr (s2p "type")), (PStr (s2p "array"))); ((PStr (s2p "items")), (PDict [((PStr (s2p "$ref")), (PStr (s2p "#/definitions/B")))])); ((PStr (s2p "minItems")), (PNum (NInt (0)%Z))); ((PStr (s2p "uniqueItems")), (PBool true))])); ((PStr (s2p "t")), (PDict [((PStr (s2p "type")), (PStr (s2p "array"))); ((PStr (s2p "items")), (PList [(PDict [((PStr (s2p "type")), (PStr (s2p "boolean")))]); (PDict [((PStr (s2p "type")), (PStr (s2p "number")))])])); ((PStr (s2p "default")), (PList [(PNum (NInt (1)%Z)); (PStr (s2p "z"))]))])); ((PStr (s2p "u")), (PDict [((PStr (s2p "anyOf")), (PList [(PDict [((PStr (s2p "type")), (PStr (s2p "boolean")))]); (PDict [((PStr (s2p "enum")), (PList [(PStr (s2p "x")); (PNum (NInt (1)%Z))]))])]))])); ((PStr (s2p "w")), (PDict [((PStr (s2p "not")), (PDict [((PStr (s2p "type")), (PStr (s2p "string")))]))])); ((PStr (s2p "m")), (PDict [((PStr (s2p "type")), (PStr (s2p "object"))); ((PStr (s2p "additionalProperties")), (PDict [((PStr (s2p "type")), (PStr (s2p "number")))])); ((PStr (s2p "default")), (PDict [((PStr (s2p "k")), (PNum (NInt (1)%Z)))]))])); ((PStr (s2p "o")), (PDict [((PStr (s2p "type")), (PStr (s2p "object"))); ((PStr (s2p "properties")), (PDict [((PStr (s2p "k")), (PDict [((PStr (s2p "type")), (PStr (s2p "string")))]))])); ((PStr (s2p "required")), (PList [(PStr (s2p "k"))])); ((PStr (s2p "additionalProperties")), (PBool false))]))])); ((PStr (s2p "required")), (PList [(PStr (s2p "n")); (PStr (s2p "s")); (PStr (s2p "a"))])); ((PStr (s2p "additionalProperties")), (PBool false))]).
+Definition sample_defs : pyval := (PDict [((PStr (s2p "B")), (PDict [((PStr (s2p "type")), (PStr (s2p "object"))); ((PStr (s2p "properties")), (PDict [((PStr (s2p "v")), (PDict [((PStr (s2p "type")), (PStr (s2p "integer")))]))])); ((PStr (s2p "required")), (PList [(PStr (s2p "v"))]))])); ((PStr (s2p "C")), (PDict [((PStr (s2p "properties")), (PDict [((PStr (s2p "b")), (PDict [((PStr (s2p "$ref")), (PStr (s2p "#/definitions/B")))]))]))]))]).
+(* what typedpy's schema_to_struct_code("A", sample_schema, sample_defs) / schema_definitions_to_code(sample_defs)
+   returned when this file was written *)
+Definition sample_text : pystr := [99;108;97;115;115;32;65;40;83;116;114;117;99;116;117;114;101;41;58;10;32;32;32;32;34;100;39;113;32;233;34;10;10;32;32;32;32;95;97;100;100;105;116;105;111;110;97;108;95;112;114;111;112;101;114;116;105;101;115;32;61;32;70;97;108;115;101;10;32;32;32;32;110;58;32;73;110;116;101;103;101;114;40;109;105;110;105;109;117;109;61;48;44;32;100;101;102;97;117;108;116;61;51;41;10;32;32;32;32;115;58;32;83;116;114;105;110;103;40;109;97;120;76;101;110;103;116;104;61;53;44;32;112;97;116;116;101;114;110;61;39;94;97;92;92;100;39;44;32;100;101;102;97;117;108;116;61;39;120;39;41;10;32;32;32;32;97;58;32;65;114;114;97;121;40;117;110;105;113;117;101;73;116;101;109;115;61;84;114;117;101;44;32;109;105;110;73;116;101;109;115;61;48;44;32;105;116;101;109;115;61;66;41;10;32;32;32;32;116;58;32;65;114;114;97;121;40;105;116;101;109;115;61;91;66;111;111;108;101;97;110;40;41;44;32;78;117;109;98;101;114;40;41;93;44;32;100;101;102;97;117;108;116;61;108;97;109;98;100;97;58;32;91;49;44;32;39;122;39;93;41;10;32;32;32;32;117;58;32;65;110;121;79;102;40;102;105;101;108;100;115;61;91;66;111;111;108;101;97;110;40;41;44;32;69;110;117;109;40;118;97;108;117;101;115;61;91;39;120;39;44;32;49;93;41;93;41;10;32;32;32;32;119;58;32;78;111;116;70;105;101;108;100;40;102;105;101;108;100;115;61;91;83;116;114;105;110;103;40;41;93;41;10;32;32;32;32;109;58;32;77;97;112;40;105;116;101;109;115;61;91;83;116;114;105;110;103;40;41;44;32;78;117;109;98;101;114;40;41;93;44;32;100;101;102;97;117;108;116;61;108;97;109;98;100;97;58;32;123;39;107;39;58;32;49;125;41;10;32;32;32;32;111;58;32;83;116;114;117;99;116;117;114;101;82;101;102;101;114;101;110;99;101;40;95;97;100;100;105;116;105;111;110;97;108;95;112;114;111;112;101;114;116;105;101;115;61;70;97;108;115;101;44;32;95;114;101;113;117;105;114;101;100;61;91;39;107;39;93;44;32;107;61;83;116;114;105;110;103;40;41;41;10;10;32;32;32;32;95;114;101;113;117;105;114;101;100;32;61;32;91;39;97;39;93]%N.
+Definition sample_defs_text : pystr := [99;108;97;115;115;32;66;40;83;116;114;117;99;116;117;114;101;41;58;10;32;32;32;32;118;58;32;73;110;116;101;103;101;114;40;41;10;10;32;32;32;32;95;114;101;113;117;105;114;101;100;32;61;32;91;39;118;39;93;10;10;10;99;108;97;115;115;32;67;40;83;116;114;117;99;116;117;114;101;41;58;10;32;32;32;32;98;58;32;66]%N.
+
+Example fragment_inhabited :
+  exists c toks, class_of O_sample 3 (s2p "A") sample_schema = Some c /\ class_toks c = Some toks
+                 /\ rt O_sample toks = sample_text.
+Proof. eexists. eexists. split; [vm_compute; reflexivity|]. split; vm_compute; reflexivity. Qed.
+
+Example sample_runs :
+  schema_to_struct_code O_sample 7 (PStr (s2p "A")) sample_schema (PList []) = Ok (PStr sample_text).
+Proof. vm_compute. reflexivity. Qed.
+
+Example defs_fragment_inhabited :
+  exists cs toks, classes_of O_sample 2 sample_defs = Some cs /\ defs_toks joiner_v1 cs = Some toks
+                  /\ rt O_sample toks = sample_defs_text.
+Proof. eexists. eexists. split; [vm_compute; reflexivity|]. split; vm_compute; reflexivity. Qed.
+
+Example sample_defs_run :
+  schema_definitions_to_code O_sample 5 sample_defs (PList []) = Ok (PStr sample_defs_text).
+Proof. vm_compute. reflexivity. Qed.
+
+Print Assumptions handle_default_ok.
+Print Assumptions StringMapper_paramlist.
+Print Assumptions NumberMapper_paramlist.
+Print Assumptions BooleanMapper_paramlist.
+Print Assumptions EnumMapper_paramlist.
+Print Assumptions ArrayMapper_paramlist.
+Print Assumptions MultiFieldMapper_paramlist.
+Print Assumptions StructureReferenceMapper_paramlist.
+Print Assumptions MapMapper_paramlist.
+Print Assumptions convert_body_ok.
+Print Assumptions convert_spec.
+Print Assumptions convert_to_field_code_bridge.
+Print Assumptions schema_to_struct_code_bridge.
+Print Assumptions schema_definitions_to_code_bridge.
+Print Assumptions fragment_inhabited.
+Print Assumptions sample_runs.
+Print Assumptions defs_fragment_inhabited.
+Print Assumptions sample_defs_run.
